@@ -98,9 +98,15 @@ NOTSAN static long futex(int *addr, int op, int val)
     return syscall(SYS_futex, addr, op, val, nullptr, nullptr, 0);
 }
 
-static char hook_code(const char *name)
-{
-    static const struct { const char *n; char c; } tab[] = {
+// Round 3b: the point NAMES are the contract between library and harness, and a harmless change of the library may add,
+// rename, move or remove a point.  (1) A point whose name is not in this table is IGNORED by the scheduler (the thread
+// does not park, no token, no schedule digit is consumed).  (2) Which of the known points the compiled library really
+// has is PROBED before main(): the pre-main object below walks through every library call once (my_t < 0: nothing
+// parks) and igris_verif_point records the names it is passed.  A case whose programs need a point that was not seen
+// is generated as `x <case>`: it is still run on the real code under ThreadSanitizer and the watchdogs, but its compared
+// result is the constant `oracle-only` (the driver prints the same) and it carries the tag `point-absent`; the
+// trace-derived oracle clauses (they are built from the points) are not judged for it.
+static const struct { const char *n; char c; } HOOKS[] = {
         {"syslock.lock", 'L'}, {"syslock.unlock", 'U'}, {"syslock.save", 'S'}, {"syslock.restore", 'R'},
         {"wait.enqueue", 'q'}, {"event.wait.lock", 'w'}, {"event.wait.cv", 'c'}, {"event.wait.unlock", 'u'},
         {"wait.return", 'r'}, {"unwait.unlink", 'k'}, {"event.signal.lock", 's'}, {"event.signal.unlock", 't'},
@@ -108,10 +114,20 @@ static char hook_code(const char *name)
         {"sq.push.post", 'p'}, {"sq.pop.post", 'g'}, {"sq.size.post", 'z'},
         {"event.twait.lock", 'd'}, {"event.twait.cv", 'e'}, {"event.twait.unlock", 'f'},
         {"event.reset.lock", 'x'}, {"event.reset.unlock", 'y'}};
-    for (auto &e : tab)
-        if (!strcmp(e.n, name))
-            return e.c;
-    return '?';
+enum { NHOOKS = sizeof(HOOKS) / sizeof(HOOKS[0]) };
+static unsigned points_seen = 0;   // bit i: HOOKS[i].n was passed at least once by the pre-main walk (atomic: two threads)
+static unsigned unknown_points = 0; // calls with a name that is not in the table (ignored)
+static int hook_index(const char *name)
+{
+    for (int i = 0; i < NHOOKS; i++)
+        if (!strcmp(HOOKS[i].n, name))
+            return i;
+    return -1;
+}
+static bool point_present(const char *name)
+{
+    int i = hook_index(name);
+    return i >= 0 && (__atomic_load_n(&points_seen, __ATOMIC_RELAXED) >> i & 1);
 }
 
 NOTSAN static void park(int t, char code, const void *obj, int cnt)
@@ -179,9 +195,16 @@ NOTSAN static void park(int t, char code, const void *obj, int cnt)
 
 extern "C" void igris_verif_point(const char *name, const void *obj)
 {
+    int i = hook_index(name);
     if (my_t < 0)
+    {
+        if (i >= 0) __atomic_fetch_or(&points_seen, 1u << i, __ATOMIC_RELAXED);
+        else __atomic_fetch_add(&unknown_points, 1u, __ATOMIC_RELAXED);
         return;
-    park(my_t, hook_code(name), obj, syslock_counter());
+    }
+    if (i < 0)
+        return; // unknown point name: ignored by the scheduler
+    park(my_t, HOOKS[i].c, obj, syslock_counter());
 }
 
 NOTSAN static void mark_done(int t)
@@ -235,7 +258,10 @@ struct EvMirror // layout of igris::event (its members are private)
     std::mutex m;
     std::condition_variable c;
 };
-static_assert(sizeof(EvMirror) == sizeof(igris::event), "igris::event layout changed");
+// round 3b: NOT a static_assert any more (a harmless change of the private members must not break the build): when the
+// layout differs the spurious-return injector and the flag peek are switched off and every case is generated as
+// `x <case>` (oracle-only, tag `layout-absent`)
+static constexpr bool ev_mirror_ok = sizeof(EvMirror) == sizeof(igris::event) && alignof(EvMirror) == alignof(igris::event);
 typedef int (*cond_fn)(pthread_cond_t *);
 static cond_fn real_broadcast = nullptr;
 static void init_real_broadcast()
@@ -274,7 +300,7 @@ NOTSAN static bool asleep_on_primitive(int t)
     unsigned long lo = (unsigned long)s.obj;
     if (a0 < lo || a0 >= lo + sz)
         return false;
-    if (s.nocv && a0 >= lo + offsetof(EvMirror, c))
+    if (s.nocv && ev_mirror_ok && a0 >= lo + offsetof(EvMirror, c))
         return false; // a zero time-out never sleeps in the condition variable (it may be seen inside futex() on its way out)
     snprintf(path, sizeof path, "/proc/self/task/%d/stat", s.ktid);
     fd = open(path, O_RDONLY);
@@ -289,7 +315,7 @@ NOTSAN static bool asleep_on_primitive(int t)
     return p && p[1] == ' ' && p[2] == 'S';
 }
 
-NOTSAN static bool mirror_flag(const void *e) { return ((const EvMirror *)e)->flag; }
+NOTSAN static bool mirror_flag(const void *e) { return ev_mirror_ok && ((const EvMirror *)e)->flag; }
 // address the thread sleeps on in futex(), 0 if it is not in futex()
 NOTSAN static unsigned long futex_addr(int t)
 {
@@ -311,7 +337,7 @@ NOTSAN static unsigned long futex_addr(int t)
 // asleep inside the condition variable of its own event (not on the event's mutex)
 NOTSAN static bool asleep_in_cv(int t)
 {
-    if (__atomic_load_n(&slot[t].st, __ATOMIC_ACQUIRE) != RUNNING || (slot[t].hook != 'c' && slot[t].hook != 'e') || !asleep_on_primitive(t))
+    if (!ev_mirror_ok || __atomic_load_n(&slot[t].st, __ATOMIC_ACQUIRE) != RUNNING || (slot[t].hook != 'c' && slot[t].hook != 'e') || !asleep_on_primitive(t))
         return false;
     const EvMirror *m = (const EvMirror *)slot[t].obj;
     unsigned long a = futex_addr(t), lo = (unsigned long)&m->c;
@@ -478,6 +504,10 @@ static std::string oracle_text()
 // what it saw; op `p premain` reports it later.  The library's own statics
 // (recursive mutex, thread_local count) must be usable at that time.
 // ---------------------------------------------------------------------------
+// field names / widths the property does not fix: optional, reported as TAGS of the op `k consts`
+template <class T> static long save_count_of(const T &s) { if constexpr (requires { s.count; }) return (long)s.count; else return 1; }
+template <class T> static size_t save_count_size() { if constexpr (requires(T s) { s.count; }) return sizeof(T::count); else return 0; }
+template <class T> static size_t future_size() { if constexpr (requires(T s) { s.future; }) return sizeof(T::future); else return 0; }
 static sigjmp_buf premain_jb;
 static void premain_segv(int) { siglongjmp(premain_jb, 1); }
 struct PreMain
@@ -531,12 +561,13 @@ struct PreMain
         igris::event ev;
         int s1 = ev.signal(), i1 = ev.isset();
         ev.wait();
+        (void)ev.wait(std::chrono::seconds(0)); // the event is set: returns at once (walks through the event.twait.* points for the probe)
         int r1 = ev.reset(), i2 = ev.isset();
         igris::semaphore sm(1);
         sm.wait(); int v0 = sm.getvalue();
         sm.post(); int v1 = sm.getvalue();
         snprintf(text, sizeof text, "premain lock=%d,%d,%d,%d,%d save=%d fut=%ld wq=%d q=%ld,%ld ev=%d,%d,%d,%d sem=%d,%d",
-                 a, b, c2, d, e, (int)sv.count, (long)(intptr_t)fut, (int)head.size(), g, z, s1, i1, r1, i2, v0, v1);
+                 a, b, c2, d, e, (int)save_count_of(sv), (long)(intptr_t)fut, (int)head.size(), g, z, s1, i1, r1, i2, v0, v1);
     }
 };
 static PreMain premain __attribute__((init_priority(101)));
@@ -548,16 +579,28 @@ struct SqMirror // layout of igris::safe_queue<long> (its members are private)
     std::queue<long> queue;
     igris::semaphore sem;
 };
-static_assert(sizeof(SqMirror) == sizeof(igris::safe_queue<long>), "igris::safe_queue layout changed");
+static constexpr bool sq_mirror_ok = sizeof(SqMirror) == sizeof(igris::safe_queue<long>) && alignof(SqMirror) == alignof(igris::safe_queue<long>);
 static std::string consts_text()
 {
+    // compared result: only what the property fixes - the first operation on a fresh safe_queue goes through (its
+    // semaphore starts free; model: init.sem = 1) and the lock count can go negative-free through 0..9 (signed or not is a
+    // tag).  Round 3b: the widths of the private counters, the field names and the semaphore's exact initial value
+    // read through the layout mirror are internals: TAGS (consts_tags), not compared.
     igris::safe_queue<long> q;
-    int sem0 = ((SqMirror *)&q)->sem.getvalue(); // initial value of safe_queue's semaphore (model: init.sem = 1)
-    syslock_save_pair sp = {0, 0};
-    waiter wt = {};
+    q.push(1);
+    int free0 = (q.size() == 1);
     char b[200];
-    snprintf(b, sizeof b, "consts sem0=%d counter=%zu savecount=%zu future=%zu signed=%d", sem0, sizeof(decltype(syslock_counter())),
-             sizeof(sp.count), sizeof(wt.future), (int)std::is_signed<decltype(syslock_counter())>::value);
+    snprintf(b, sizeof b, "consts sem0=%d", free0);
+    return b;
+}
+static std::string consts_tags()
+{
+    igris::safe_queue<long> q;
+    char b[200];
+    snprintf(b, sizeof b, "consts,sem0-mirror=%d,counter=%zu,savecount=%zu,future=%zu,signed=%d,unknown-points=%u,points-seen=%x",
+             sq_mirror_ok ? ((SqMirror *)&q)->sem.getvalue() : -1, sizeof(decltype(syslock_counter())),
+             save_count_size<syslock_save_pair>(), future_size<waiter>(), (int)std::is_signed<decltype(syslock_counter())>::value,
+             __atomic_load_n(&unknown_points, __ATOMIC_RELAXED), __atomic_load_n(&points_seen, __ATOMIC_RELAXED));
     return b;
 }
 
@@ -725,7 +768,7 @@ static void run_case(const std::vector<std::string> &w, hv::out &o)
     if (w.size() == 2 && w[0] == "k")
     {
         o.result = consts_text();
-        o.tag("consts");
+        o.tag(consts_tags().c_str());
         return;
     }
     Case &c = *new Case(); // leaked on purpose when threads stay blocked
@@ -1332,7 +1375,23 @@ static void worker_loop(int in_fd)
         while (!l.empty() && (l.back() == '\n' || l.back() == '\r'))
             l.pop_back();
         hv::out o;
-        run_case(hv::words(l), o);
+        std::vector<std::string> ws = hv::words(l);
+        if (!ws.empty() && ws[0] == "x")
+        {
+            // degraded case (a point its programs need is absent / the event layout mirror does not fit): run it, let
+            // ThreadSanitizer, the crash handling and the watchdogs judge; the trace-derived clauses are not judged
+            ws.erase(ws.begin());
+            run_case(ws, o);
+            o.result = "oracle-only";
+            if (o.oracle != "ok" && o.oracle.find("watchdog") == std::string::npos)
+            {
+                o.oracle = "ok";
+                o.tag("oracle-degraded");
+            }
+            o.tag(ev_mirror_ok ? "point-absent" : "layout-absent");
+        }
+        else
+            run_case(ws, o);
         if (worker_must_exit)
             (void)!write(1, "@@X\n", 4);
         o.emit();
@@ -1541,6 +1600,39 @@ static int supervise()
 }
 
 void c20_gen(hv::rng &r, const std::string &tier); // harness/C20_gen.cpp
+// does the compiled library have every point the programs of this case need?  (used by the generator)
+bool c20_case_degraded(const char *kind, const std::string &progs)
+{
+    if (!ev_mirror_ok)
+        return true;
+    auto need = [&](std::initializer_list<const char *> names) { for (auto n : names) if (!point_present(n)) return true; return false; };
+    bool ecase = kind[0] == 'e';
+    for (size_t i = 0; i < progs.size(); i++)
+    {
+        char k = progs[i];
+        if (i && progs[i - 1] != '/' && progs[i - 1] != ',') continue; // only the op letters
+        bool miss = false;
+        switch (k)
+        {
+        case 'L': miss = need({"syslock.lock"}); break;
+        case 'U': miss = need({"syslock.unlock"}); break;
+        case 'S': miss = need({"syslock.save"}); break;
+        case 'R': miss = need({"syslock.restore"}); break;
+        case 'W': miss = need({"syslock.lock", "syslock.unlock", "wait.enqueue", "event.wait.lock", "event.wait.cv", "event.wait.unlock", "wait.return"}); break;
+        case 'O': case 'A': miss = need({"syslock.lock", "syslock.unlock", "unwait.unlink", "event.signal.lock", "event.signal.notify", "event.signal.unlock"}); break;
+        case 'P': miss = need({"sq.push.wait", "sq.push.post"}); break;
+        case 'G': miss = need({"sq.pop.wait", "sq.pop.post"}); break;
+        case 'Z': miss = need({"sq.size.wait", "sq.size.post"}); break;
+        case 'E': miss = need({"event.wait.lock", "event.wait.cv", "event.wait.unlock"}); break;
+        case 'T': miss = need({"event.twait.lock", "event.twait.cv", "event.twait.unlock"}); break;
+        case 'N': miss = need({"event.signal.lock", "event.signal.notify", "event.signal.unlock"}); break;
+        case 'C': miss = ecase && need({"event.reset.lock", "event.reset.unlock"}); break;
+        default: break;
+        }
+        if (miss) return true;
+    }
+    return false;
+}
 
 int main(int argc, char **argv)
 {
